@@ -67,7 +67,7 @@ def gen_comp(rng, depth=0):
     if k == 9:
         return ('urange', rng.choice(['U+0-7F', 'U+4??', 'U+26']))
     if k == 10 and depth == 0 and rng.random() < 0.5:
-        return ('calc', rng.choice(['1px', '100%', '2em', '10']), rng.choice(['+', '-', '*']), rng.choice(['2px', '50%', '3']))
+        return ('calc', rng.choice(['1px', '100%', '2em', '10']), rng.choice(['+', '-', '*', '/']), rng.choice(['2px', '50%', '3']))
     return ('ident', gen_ident(rng))
 
 
@@ -269,8 +269,8 @@ def q_string(sp, s):
 def r_url(sp, u, form=None):
     form = form or ('urlq' if any(c in u for c in ' \'"()') else (sp.rng.choice(['url', 'urlq']) if sp.rng and sp.level >= 4 else 'url'))
     if form == 'url' and not any(c in u for c in ' \'"()\\'):
-        return sp.case('url') + '(' + sp.ws() + u + sp.ws() + ')'
-    return sp.case('url') + '(' + sp.ws() + q_string(sp, u) + sp.ws() + ')'
+        return sp.esc_name(sp.case('url')) + '(' + sp.ws() + u + sp.ws() + ')'
+    return sp.esc_name(sp.case('url')) + '(' + sp.ws() + q_string(sp, u) + sp.ws() + ')'
 
 
 def r_comp(sp, c):
@@ -293,18 +293,22 @@ def r_comp(sp, c):
         return sp.esc_name(sp.case(c[1])) + '(' + sp.gap() + r_value(sp, c[2]) + sp.gap() + ')'
     if k == 'rgb':
         name = c[1]
+        # white space / comments at every token boundary between the arguments
+        comma = lambda: sp.gap() + ',' + sp.gap()    # noqa: E731
         if name == 'rgb':
-            args = '%d,%s%d,%s%d' % (c[2], sp.gap(), c[3], sp.gap(), c[4])
+            args = '%d%s%d%s%d' % (c[2], comma(), c[3], comma(), c[4])
         elif name == 'rgba':
-            args = '%d,%s%d,%s%d,%s0.5' % (c[2], sp.gap(), c[3], sp.gap(), c[4], sp.gap())
+            args = '%d%s%d%s%d%s0.5' % (c[2], comma(), c[3], comma(), c[4], comma())
         else:
-            args = '%d,%s%d%%,%s%d%%' % (c[2], sp.gap(), c[3], sp.gap(), c[4])
-        return sp.case(name) + '(' + sp.gap() + args + sp.gap() + ')'
+            args = '%d%s%d%%%s%d%%' % (c[2], comma(), c[3], comma(), c[4])
+        return sp.esc_name(sp.case(name)) + '(' + sp.gap() + args + sp.gap() + ')'
     if k == 'urange':
         return c[1]
     if k == 'calc':
-        # white space around the operator is part of the syntax of calc(); a comment does not stand for it
-        return 'calc(' + sp.ws() + c[1] + (sp.ws() or ' ') + c[2] + (sp.ws() or ' ') + c[3] + sp.ws() + ')'
+        # white space around + and - is part of the syntax of calc() (a comment does not stand for it, but may stand
+        # next to it); around * and / it is optional
+        g = (lambda: sp.gap(need=True)) if c[2] in '+-' else sp.gap
+        return sp.esc_name(sp.case('calc')) + '(' + sp.gap() + c[1] + g() + c[2] + g() + c[3] + sp.gap() + ')'
     if k == 'sep':
         return c[1]
     raise ValueError(c)
